@@ -2,7 +2,7 @@
     Layout.v is the independent reader (it contains only the published layout); LayoutEnc.v states what a
     conforming writer produces.  The harness decodes every file the implementation writes with the extracted
     reader and compares with the API's report. *)
-From Bbolt Require Import Base Consts Spec Fnv Layout LayoutEnc LayoutProofs LayoutPageProofs.
+From Bbolt Require Import Base Consts Spec Fnv Layout LayoutEnc LayoutProofs LayoutPageProofs Node NodeProofs.
 
 (** little-endian integers of any width round-trip at any file position *)
 Theorem C12_integer_roundtrip : forall n v pre post, v < 256 ^ N.of_nat n ->
@@ -68,3 +68,46 @@ Theorem C12_branch_elements_roundtrip : forall pg ov kcs pre post limit,
     forallb (fun x => let '(kp, ks, child) := x in kp + ks <=? limit) elems = true.
 Proof. exact branch_elems_roundtrip. Qed.
 Print Assumptions C12_branch_elements_roundtrip.
+
+(** ---- what the code's own page writer produces (Node.write: line-for-line model of node.write / WriteInodeToPage) ---- *)
+
+(** a leaf node is written as exactly the published leaf page (the writer specification that leaf_page_roundtrip above reads back
+    with the independent reader) *)
+Theorem C12_node_write_is_published_leaf_page : forall n pg ov, n_leaf n = true -> Forall (fun x => i_flags x = 0) (n_inodes n) ->
+  forall bytes, write n pg ov = Ok bytes ->
+  bytes = enc_leaf_page_ov pg ov (map (fun x => (i_key x, i_val x)) (n_inodes n)).
+Proof. exact write_leaf_is_spec. Qed.
+Print Assumptions C12_node_write_is_published_leaf_page.
+
+Theorem C12_node_write_is_published_branch_page : forall n pg ov, n_leaf n = false -> Forall (fun x => i_val x = []) (n_inodes n) ->
+  forall bytes, write n pg ov = Ok bytes ->
+  bytes = enc_branch_page pg ov (map (fun x => (i_key x, i_pgid x)) (n_inodes n)).
+Proof. exact write_branch_is_spec. Qed.
+Print Assumptions C12_node_write_is_published_branch_page.
+
+(** the page holds exactly node.size() bytes, and node.write refuses exactly: 65535 or more elements, an empty key, a branch element
+    pointing at the page itself *)
+Theorem C12_node_write_length : forall n pg ov bytes, write n pg ov = Ok bytes -> N.of_nat (length bytes) = size n.
+Proof. exact write_length. Qed.
+Print Assumptions C12_node_write_length.
+
+(** write then read (node.read / ReadInodeFromPage, at any position in a file) gives the node back - for pages below 4 GiB ... *)
+Theorem C12_node_write_read_roundtrip : forall n pg ov pre post bytes,
+  node_wf n -> pg < 2^64 -> ov < 2^32 -> N.of_nat (length (n_inodes n)) < 65535 -> size n < 2^32 ->
+  write n pg ov = Ok bytes ->
+  read (rd_of (pre ++ bytes ++ post)) (N.of_nat (length pre)) = Ok {| n_leaf := n_leaf n; n_unbal := false; n_inodes := n_inodes n |}.
+Proof. exact write_read_roundtrip. Qed.
+Print Assumptions C12_node_write_read_roundtrip.
+
+(** ... and the size bound is needed: the element header stores the distance to the key as a uint32, so a page of 4 GiB or more
+    (a value of 2^32-1 bytes in front of another element) does not read back although every field is in range.  Unreachable through
+    the API (MaxValueSize = 2^31-2 and MaxKeySize bound a single element below that), so not a defect. *)
+Theorem C12_roundtrip_needs_the_size_bound :
+  exists n pg ov bytes,
+    (Forall (fun x => 0 < len (i_key x) < 2^32 /\ len (i_val x) < 2^32 /\ i_flags x < 2^32 /\ i_pgid x < 2^64) (n_inodes n) /\
+     n_leaf n = true /\ Forall (fun x => i_pgid x = 0) (n_inodes n)) /\
+    pg < 2^64 /\ ov < 2^32 /\ N.of_nat (length (n_inodes n)) < 65535 /\
+    write n pg ov = Ok bytes /\
+    read (rd_of ([] ++ bytes ++ [])) (N.of_nat (length (@nil N))) <> Ok {| n_leaf := n_leaf n; n_unbal := false; n_inodes := n_inodes n |}.
+Proof. exact roundtrip_needs_size_bound. Qed.
+Print Assumptions C12_roundtrip_needs_the_size_bound.
